@@ -1450,3 +1450,40 @@ Lemma former_witnesses_accepted :
   map program_ok [wit_self_assign; wit_while_cond; wit_for_bound; wit_continue_header; wit_continue_foreach; wit_return_in_while]
   = [true; true; true; true; true; true].
 Proof. vm_compute. reflexivity. Qed.
+
+(* ------------------------------------------------------------------ references derived from a temporary owner *)
+(* Every action that READS a place for a deep copy requires the owner of that place to be owned still: a reference
+   derived from a value (element, field) cannot be used once the value was released or handed on. *)
+Lemma read_of_unowned_rejected : forall K G p, mem (root p) (o_own G) = false ->
+  (forall d, own_check K (ICopy d p) G = None) /\
+  (forall d, own_check K (IAbsorbCopy d p) G = None) /\
+  (forall d a, own_check K (IConcat d a p) G = None) /\
+  (forall s k, own_check K (IAssignPartCopy s k p) G = None).
+Proof.
+  intros K G p H. repeat split; intros; cbn [own_check]; rewrite H; rewrite ?andb_false_r; cbn [andb]; reflexivity.
+Qed.
+
+(* `(f an der Stelle 2), falls c, ansonsten v` and `v, falls c, ansonsten (<literal> an der Stelle 1)` where f returns a
+   list: BIN_INDEX copies the element of the TEMPORARY list into a temporary of its own inside the arm, before the arm's
+   scope releases the list; the compiled program is accepted *)
+Definition wit_elem_of_temp : program :=
+  mkProg [mkFun [] true (SReturn (Some (EBuild 32 (XCons (ELit 5) (XCons (ELit 7) XNil)))))]
+    (SSeq (SDecl 0%nat (ELit 8))
+    (SSeq (SDecl 1%nat (EFalls EPrim (EElem (ECall 0%nat ANil) 2%nat) (EVar 0%nat)))
+    (SSeq (SDecl 2%nat (EFalls EPrim (EVar 0%nat) (EElem (EBuild 32 (XCons (ELit 5) XNil)) 1%nat)))
+          (SWhile (EUse2 (EElem (ECall 0%nat ANil) 1%nat) (EVar 0%nat)) (SBlock SSkip))))).
+Lemma elem_of_temp_accepted : program_ok wit_elem_of_temp = true.
+Proof. vm_compute. reflexivity. Qed.
+
+(* the arm of `falls` as emitted for that expression (slot 0 the temporary list with one element, 4 the copy of the
+   element, 2 the result of `falls`, 1 the other arm) ... *)
+Definition arm_copy_then_release : instr :=
+  iseq [IIf (iseq [INew 0 32; INew 3 5; IAbsorb 0 3; ICopy 4 (PPart 0 1); IFree 0; IMove 2 4]) (iseq [INew 1 4; IMove 2 1]); IFree 2].
+(* ... and with a plain reference into the temporary list handed out of the arm instead (the element is copied when
+   `falls` joins its arms, after the arm's scope released the list) *)
+Definition arm_release_then_copy : instr :=
+  iseq [IIf (iseq [INew 0 32; INew 3 5; IAbsorb 0 3; IFree 0; ICopy 2 (PPart 0 1)]) (iseq [INew 1 4; IMove 2 1]); IFree 2].
+Lemma derived_reference_must_not_outlive_owner :
+  own_check ctx0 arm_copy_then_release (mkO [] []) = Some (Some (mkO [] [])) /\
+  own_check ctx0 arm_release_then_copy (mkO [] []) = None.
+Proof. split; vm_compute; reflexivity. Qed.
